@@ -334,6 +334,27 @@ def eval_group(env, group, tier):
                 one([f] + r, cli=True, layer='argv')
         one([''], cli=True, layer='argv')
         one(['', ''], cli=True, layer='argv')
+        # arguments that are not valid UTF-8, alone and inside a query; option letters glued to other text
+        for a in (['\udcff'], ['name', 'from', '.', 'where', 'name', '=', 'a\udcffb'], ["name from . where name = 'x\udcfe'"], ['\udcff\udcfe', 'name'],
+                  ['--config', '/L/\udcff.toml', 'name'], ['-count(*)'], ['-inode from .'], ['-hardlinks', 'from', '.'], ['name from helpers'],
+                  ["name from . where name = 'version'"], ['exif_version from . limit 1'], ['name from . where name like %nocolor%']):
+            one(a, cli=True, layer='argv')
+        # the working directory has been removed (absolute roots stay searchable, `.` is a failing root)
+        for a in (['name from /work'], ['name from .'], ['name'], ['name from /work/sub, . limit 2'], ["name from 's.*' rx"], ['count(*) from /work']):
+            o = core.run_jailed(env, j['root'], a, timeout=10.0, cwd='@gone')
+            cls, detail = judge(o)
+            case = {'argv': a, 'label': 'cwd-removed', 'expect': None}
+            if cls:
+                outs.append({'case': case, 'status': 'viol', 'cls': cls, 'detail': dict(detail, argv=a, cwd='removed'), 'nt': True, 'sig': ('viol', cls), 'layer': 'argv'})
+            else:
+                agg['cases'] += 1
+                agg['nt'] += 1
+    elif kind == 'one' and group.get('label') == 'cwd-removed':
+        o = core.run_jailed(env, j['root'], group['argv'], timeout=10.0, cwd='@gone')
+        cls, detail = judge(o)
+        if cls:
+            outs.append({'case': {'argv': group['argv'], 'label': 'cwd-removed', 'expect': None}, 'status': 'viol', 'cls': cls,
+                         'detail': dict(detail, argv=group['argv'], cwd='removed'), 'nt': True, 'sig': ('viol', cls), 'layer': 'argv'})
     elif kind == 'one':
         one(group['argv'], group.get('label'), group.get('expect'), cli=True)
     if agg['cases']:
